@@ -23,7 +23,7 @@ Proof. exact report_exact. Qed.
 Print Assumptions C16_report_exact_per_flag.
 
 (* 1''. Confinement (partial: the full statement is 1): EVERY quirk vector, the one claimed for the current
-      tree included, is exact on files outside the six defect classes that are still listed.  (Abstract classes,
+      tree included, is exact on files outside the nine defect classes that are still listed.  (Abstract classes,
       trait / generic impl blocks and blank / comment lines in TS classes are no longer defect classes: the
       repaired code is covered by 1 and 1' through the generated ts_class_node_types, rs_target_mode, ts_loc_mode.) *)
 Theorem C16_actual_exact_partial : forall q c f,
